@@ -849,10 +849,14 @@ func (fr *Frame) applyModifies(st, pre *State, fc *FuncContract, env *Env, args 
 // havocPath handles modifies items: *p, p.f, p[*], p.f[*], m (map contents)
 func (fr *Frame) havocPath(st, pre *State, item string, env *Env) *State {
 	vc := fr.vc
-	elems := false
+	elems, inLen := false, false
 	if strings.HasSuffix(item, "[*]") {
 		elems = true
 		item = strings.TrimSuffix(item, "[*]")
+	} else if strings.HasSuffix(item, "[:]") {
+		// x[:]: only the elements within the length of x
+		elems, inLen = true, true
+		item = strings.TrimSuffix(item, "[:]")
 	}
 	deref := false
 	if strings.HasPrefix(item, "*") {
@@ -871,6 +875,10 @@ func (fr *Frame) havocPath(st, pre *State, item string, env *Env) *State {
 		case *types.Slice:
 			hv := vc.arrHeapVar(u.Elem())
 			f := vc.freshConst("mod", fmt.Sprintf("(Array %s %s)", vc.goInt(), vc.sortOf(u.Elem())))
+			if inLen && !vc.isBV() {
+				oldArr := fmt.Sprintf("(select %s (sref %s))", st.get(hv), tv.term)
+				vc.assume(fmt.Sprintf("(forall ((k Int)) (! (=> (or (< k (soff %s)) (>= k (+ (soff %s) (slen_ %s)))) (= (select %s k) (select %s k))) :pattern ((select %s k))))", tv.term, tv.term, tv.term, f, oldArr, f))
+			}
 			return fr.setVar(st, hv, fmt.Sprintf("(store %s (sref %s) %s)", st.get(hv), tv.term, f))
 		case *types.Map:
 			hv := vc.mapHeapVar(u)
@@ -1196,6 +1204,7 @@ func (fr *Frame) builtin(st *State, g string, b *ssa.Builtin, c *ssa.CallCommon,
 	case "copy":
 		dst := fr.val(c.Args[0])
 		sl := c.Args[0].Type().Underlying().(*types.Slice)
+		preCopy := st
 		st = fr.havocArg(st, c.Args[0].Type(), dst)
 		var srclen string
 		if _, isStr := c.Args[1].Type().Underlying().(*types.Basic); isStr {
@@ -1207,7 +1216,14 @@ func (fr *Frame) builtin(st *State, g string, b *ssa.Builtin, c *ssa.CallCommon,
 		n := vc.freshConst("copied", vc.sortOf(it))
 		dl := fmt.Sprintf("(slen_ %s)", dst)
 		vc.assume(eq(n, ite(vc.leInt(dl, srclen), dl, srclen)))
-		vc.note("builtin copy in %s: destination contents havoc'ed (element values not tracked)", fr.fn.String())
+		if !vc.isBV() {
+			// only the first n elements of dst change
+			hv := vc.arrHeapVar(sl.Elem())
+			newArr := fmt.Sprintf("(select %s (sref %s))", st.get(hv), dst)
+			oldArr := fmt.Sprintf("(select %s (sref %s))", preCopy.get(hv), dst)
+			vc.assume(fmt.Sprintf("(forall ((k Int)) (! (=> (or (< k (soff %s)) (>= k (+ (soff %s) %s))) (= (select %s k) (select %s k))) :pattern ((select %s k))))", dst, dst, n, newArr, oldArr, newArr))
+		}
+		vc.note("builtin copy in %s: the copied element values are not tracked (only which elements change)", fr.fn.String())
 		return st, []string{n}
 	case "delete":
 		m := c.Args[0].Type().Underlying().(*types.Map)
